@@ -5,7 +5,7 @@ import os
 import sys
 import traceback
 
-from harness import common, tlc
+from harness import common, tlc, validate
 
 
 def registry():
@@ -77,6 +77,13 @@ def main():
     try:
         reg[a.pid](ctx)
         rc = ctx.finish()
+    except validate.TraceEvalError as e:
+        # the real code produced an observation the trace specification cannot even evaluate
+        for trace, l, msg in e.items[:5]:
+            ctx.report("clause=ObservationOutsideModel spec=%s" % e.module,
+                       "event %d of a recorded run has a shape the specification does not know (%s): %s" % (l, msg, json.dumps(trace, default=str)[:400]),
+                       {"kind": "raw_trace", "module": e.module, "trace": trace, "event": l})
+        sys.exit(ctx.finish())
     except (common.Machinery, tlc.TLCError) as e:
         print("MACHINERY-FAILURE %s: %s" % (a.pid, e))
         traceback.print_exc()
